@@ -71,12 +71,19 @@ func (c C08Case) Describe() string {
 	var b strings.Builder
 	fmt.Fprintf(&b, "start sequence %d\n", c.StartSeq)
 	for i, o := range c.Ops {
-		fmt.Fprintf(&b, " %d %s fault=%q/%d arg=%d/%v ack-errno=%d foreign=%v status=%x rules=%x rule=%x delErrAt=%d delErrno=%d noise=%v\n", i, o.Op, o.Fault, o.FaultErrno, o.U32, o.Bool, o.Errno, o.Foreign, o.Status, o.Rules, o.Rule, o.DelErrAt, o.DelErrno, o.Noise)
+		fmt.Fprintf(&b, " %d %s fault=%q/%d arg=%d/%v ack-errno=%d foreign=%v status=%x rules=%s rule=%x delErrAt=%d delErrno=%d noise=%v\n", i, o.Op, o.Fault, o.FaultErrno, o.U32, o.Bool, o.Errno, o.Foreign, o.Status, rulesText(o.Rules), o.Rule, o.DelErrAt, o.DelErrno, o.Noise)
 		if len(o.Batch) > 0 {
 			fmt.Fprintf(&b, "   (after a NoWait batch with errnos %v drained by WaitForPendingACKs)\n", o.Batch)
 		}
 	}
 	return b.String()
+}
+
+func rulesText(rs [][]byte) string {
+	if len(rs) >= 17 {
+		return fmt.Sprintf("[%d rules of %d bytes]", len(rs), len(rs[0]))
+	}
+	return fmt.Sprintf("%x", rs)
 }
 
 var opNames = []string{"GetStatus", "GetRules", "AddRule", "DeleteRule", "DeleteRules", "SetPID", "SetRateLimit", "SetBacklogLimit", "SetEnabled", "SetImmutable", "SetFailure", "SetBacklogWaitTime"}
@@ -127,8 +134,19 @@ func genOp08(t *rapid.T, eagainBudget *int) Op08 {
 		o.FaultErrno = rapid.SampledFrom([]int{int(syscall.ENOBUFS), int(syscall.EBADF), int(syscall.ECONNREFUSED), int(syscall.EPERM), int(syscall.EMSGSIZE), int(syscall.ENOTCONN)}).Draw(t, "faulterrno")
 	}
 	o.Status = rapid.SliceOfN(rapid.Byte(), 44, 44).Draw(t, "status")[:rapid.SampledFrom([]int{32, 36, 40, 44, 44, 44}).Draw(t, "statuslen")]
-	for i, n := 0, rapid.IntRange(0, 5).Draw(t, "nrules"); i < n; i++ {
-		o.Rules = append(o.Rules, rapid.SliceOfN(rapid.Byte(), 0, 60).Draw(t, "rulebytes"))
+	if (o.Op == "GetRules" || o.Op == "DeleteRules") && rapid.IntRange(0, 5).Draw(t, "manyrules") == 0 {
+		// a rule set of realistic size: dozens to hundreds of rules, each as long as struct audit_rule_data is (1040
+		// bytes and a string buffer), up to the largest message
+		n := rapid.SampledFrom([]int{65, 64, 33, 129, 300, 17}).Draw(t, "nmany")
+		size := rapid.SampledFrom([]int{1056, 1040, 1100, 2000, 8954}).Draw(t, "rulesize")
+		for i := 0; i < n; i++ {
+			r := bytes.Repeat([]byte{byte(i), byte(i >> 8), 0x5A}, size/3+1)[:size]
+			o.Rules = append(o.Rules, r)
+		}
+	} else {
+		for i, n := 0, rapid.IntRange(0, 5).Draw(t, "nrules"); i < n; i++ {
+			o.Rules = append(o.Rules, rapid.SliceOfN(rapid.Byte(), 0, 60).Draw(t, "rulebytes"))
+		}
 	}
 	o.Rule = rapid.SliceOfN(rapid.Byte(), 0, 60).Draw(t, "rule")
 	if o.Op == "DeleteRules" && len(o.Rules) > 0 && rapid.Bool().Draw(t, "delerr") {
@@ -432,6 +450,9 @@ func propC08(c C08Case) error {
 		}
 		if wantErrno != 0 {
 			hC08.Class("op-with-errno")
+		}
+		if len(o.Rules) >= 17 && (o.Op == "GetRules" || o.Op == "DeleteRules") {
+			hC08.Class("op-with-17-or-more-rules-of-realistic-size")
 		}
 		if o.Foreign {
 			hC08.Class("op-with-foreign-reply")
